@@ -17,10 +17,10 @@ type fnInfo struct {
 }
 
 type progInfo struct {
-	prog   *ssa.Program
-	fnInfo sync.Map // *ssa.Function -> *fnInfo
+	prog      *ssa.Program
+	fnInfo    sync.Map // *ssa.Function -> *fnInfo
 	implCache sync.Map
-	mirror string
+	mirror    string
 }
 
 func (pi *progInfo) info(fn *ssa.Function) *fnInfo {
